@@ -1,0 +1,10 @@
+//go:build !verif
+
+package signaling_rpc_client
+
+// verifClientEvent is a no-op unless built with the verif tag.
+func verifClientEvent(t *clientPeerTracker, kind string, a, b uint64, flag bool, sessSeqno *uint64, acked bool) {
+}
+
+// verifClientLoop is a no-op unless built with the verif tag.
+func verifClientLoop(t *clientPeerTracker, sessSeqno, cancelMsg, sendMsg, ackMsg uint64) {}
